@@ -533,3 +533,20 @@ def const_value(node):
     if isinstance(node, ast.UnaryOp) and isinstance(node.op, ast.USub) and isinstance(node.operand, ast.Constant):
         return -node.operand.value
     return None
+
+
+def canon_text(func, node):
+    """Source text of `node` with the locals of `func` (names bound in its body; not parameters, not globals)
+    abstracted to $1, $2 ... in order of first appearance: stable under renaming of locals."""
+    params = set(func.params) | ({func.vararg} if func.vararg else set()) | ({func.kwarg} if func.kwarg else set())
+    stored = {n.id for n in ast.walk(func.node) if isinstance(n, ast.Name) and isinstance(n.ctx, (ast.Store, ast.Del))} - params
+    import copy
+
+    t = copy.deepcopy(node)
+    order = {}
+    names = sorted((n for n in ast.walk(t) if isinstance(n, ast.Name) and n.id in stored), key=lambda n: (getattr(n, "lineno", 0), getattr(n, "col_offset", 0)))
+    for n in names:
+        order.setdefault(n.id, f"L{len(order) + 1}")
+    for n in names:
+        n.id = order[n.id]
+    return ast.unparse(t)
